@@ -161,9 +161,16 @@ class Checker:
             for depth in range(1, rp.depth + 2):
                 for ta in [None, *tb[:3]]:
                     # types_after: the documented use is retyping the new textblock when a textblock is split
-                    if ta is not None and (depth != 1 or not rp.parent.is_textblock):
+                    if ta is not None and (depth > 2 or not rp.parent.is_textblock):
                         continue
-                    tal = None if ta is None else [NTA(schema.nodes[ta[0]], ta[1])]
+                    if ta is None:
+                        tal = None
+                    elif depth == 1:
+                        tal = [NTA(schema.nodes[ta[0]], ta[1])]
+                    else:
+                        # depth 2: the outer "after" node keeps its type, the inner textblock is retyped
+                        outer = rp.node(rp.depth - 1)
+                        tal = [NTA(outer.type, outer.attrs), NTA(schema.nodes[ta[0]], ta[1])]
                     case = {**self.base, "helper": "can_split", "pos": p, "depth": depth,
                             "types_after": None if ta is None else [ta[0], ta[1]]}
                     st, ok = helper(res, case, n, lambda: structure.can_split(node, p, depth, tal), "can_split")
